@@ -307,6 +307,7 @@ func planC13(g *Gen, tier string) ([]SQLCase, map[string]int, bool) {
 	}
 	long := []string{"Robert\"); DROP TABLE students;--", "a\"\"b", "``", "\"", "`", "x\x00y", "名前", "ta\"ble`na'me", "\\\"", "\"\"\"", "a\" TEXT, \"b", "semi;colon", "--comment", "/* c */", "é\"è",
 		// printf verbs (a name must never reach a format string) and names beyond 63 bytes (PostgreSQL's identifier limit) with quote characters around the cut
+		"ok?", "who? what", "a?b?c", "?", "$1", "report v1.2", ".", "a.b.c", "schema.table", "t ", "a  ", " lead",
 		"100%sure", "a%%b", "a%b", "50%\"; DROP TABLE x;--", "%s", "%d%v%", "%!s(MISSING)",
 		strings.Repeat("a", 62) + "\"b", strings.Repeat("a", 61) + "\"\"b", strings.Repeat("n", 63), strings.Repeat("n", 64), strings.Repeat("é", 32) + "\"x", strings.Repeat("`q", 40), strings.Repeat("long_", 60)}
 	for i := 0; i < scale(tier, 300, 3000); i++ {
